@@ -211,8 +211,28 @@ func runC14(ctx *Ctx) {
 			continue
 		}
 		if msg := checkLexemes(in, lexs, names); msg != "" {
+			class := strings.SplitN(msg, ":", 2)[0]
+			orig := append([]byte(nil), in...)
 			ctx.Violate(Violation{Kind: "wrong-output", Site: "scanner", What: fmt.Sprintf("input %q: %s (lexemes %s)", trunc(string(in), 200), msg, trunc(implOut[i], 300)),
-				Input: map[string]any{"op": "lex", "content": hx(in)}, Observed: implOut[i], Signature: "lex:" + strings.SplitN(msg, ":", 2)[0]})
+				Input: map[string]any{"op": "lex", "content": hx(in)}, Observed: implOut[i], Signature: "lex:" + class,
+				// reduce the input while the scanner still reads it to the end and the same rule is broken
+				shrink: func() map[string]any {
+					q, ok := shrinkProject(SingleFile(orig), func(cands []Project) []bool {
+						out := make([]bool, len(cands))
+						for k, c := range cands {
+							b := c.Files[c.Root]
+							ll, tail := ScanAll(b)
+							out[k] = tail == "end" && strings.SplitN(checkLexemes(b, ll, names), ":", 2)[0] == class
+						}
+						return out
+					}, 3000)
+					if !ok {
+						return nil
+					}
+					b := q.Files[q.Root]
+					ll, tail := ScanAll(b)
+					return map[string]any{"op": "lex", "content": hx(b), "text": string(b), "lexemes": lexStr(ll, tail), "what": checkLexemes(b, ll, names), "original_content": hx(orig), "shrunk": true}
+				}})
 		}
 	}
 }
